@@ -9,7 +9,7 @@ PROPS["C07"] = dict(
          "between the expiry of a record and the expiry handling of the waiter parked on it. A deadline unit (both backends, real clock) runs waiters under a 10-400 ms deadline on a key that is not touched (or gets a new version at a drawn moment): the context's error may be returned only once ctx.Err() is non-nil (read the moment the call returns - exact), an untouched key yields neither nil nor ErrNotExist, a change well before the deadline yields nil. The Redis unit starts with systematic scripts: every kind of version argument (current, stale, garbage, EMPTY, seven near misses) against a live key. A waiter's version argument is the current version, a stale one, garbage, or a near miss of the current one (other letter case, leading/trailing blank, NUL, "
          "one character less or different): anything but the exact current version must return nil at once. Redis scripts also contain 'fault' steps (every Redis command fails for 180 ms): a waiter may give up with the storage's error or ride "
          "it out, but must not report a change or an absence that is not there; in-memory scripts also write records that are already expired "
-         "(the key is then gone for every waiter). After every step every waiter must have returned iff "
+         "(the key is then gone for every waiter). Put and CAS steps may write a 'journal' value - the bytes the storage held for the key just before (read from the Redis server; the previous version string in memory) - so that the old version text is part of the new record. A quiet unit (Redis) parks two waiters, lets 2.1 s or 4.3 s of real time pass with nothing happening and then wakes them by Put/Delete/CAS/PutMany/cancel: they must have returned 1 s after the 200 ms settling time (three runs in a row must miss that bound before it is reported). After every step every waiter must have returned iff "
          "key absent/expired (ErrNotExist) or version != argument (nil) or context done (context error), and must still be parked otherwise; "
          "the in-memory waiter table must hold exactly the parked waiters and be empty at the end. non-trivial = a waiter was cancelled "
          "while another one on the same key stayed parked, or one mutation woke >= 2 waiters; distinct = hash of (environment, script); "
@@ -24,6 +24,7 @@ PROPS["C07"] = dict(
         dict(name="squeeze", run="^TestC07Squeeze$", shards=1, timeout=(300, 900)),
         dict(name="hammer", run="^TestC07Hammer$", checks=(40, 300), shards=(2, 8), timeout=(300, 1500), shrinktime="15s", race=(False, True)),
         dict(name="redis", run="^TestC07RedisRapid$", checks=(8, 60), shards=(4, 16), timeout=(300, 1500)),
+        dict(name="redisquiet", run="^TestC07RedisQuiet$", shards=1, timeout=(300, 600)),
     ],
 )
 
